@@ -93,6 +93,7 @@ def decFn1 (j : Json) : Except String Fn1 := do
   | [.str "range_list"] => pure .rangeList
   | [.str "div_into", k] => pure (.divInto (← getInt k))
   | [.str "raise_if_mod", k, r] => do let n ← getNat k; if n = 0 then throw "bad-case" else pure (.raiseIfMod n (← getNat r))
+  | [.str "raise_if_mod", k, r, .str exc] => do let n ← getNat k; if n = 0 then throw "bad-case" else pure (.raiseIfMod n (← getNat r) exc)
   | [.str "truthy_int"] => pure .truthyInt
   | [.str "floordiv", k] => do let n ← getNat k; if n = 0 then throw "bad-case" else pure (.floordiv n)
   | [.str "pair_self"] => pure .pairSelf
@@ -115,6 +116,7 @@ def decFn2 (j : Json) : Except String Fn2 := do
   | [.str "count"] => pure .count
   | [.str "last"] => pure .last
   | [.str "raise_if_mod", k, r] => do let n ← getNat k; if n = 0 then throw "bad-case" else pure (.raiseIfMod n (← getNat r))
+  | [.str "raise_if_mod", k, r, .str exc] => do let n ← getNat k; if n = 0 then throw "bad-case" else pure (.raiseIfMod n (← getNat r) exc)
   | [.str "pair_last"] => pure .pairLast
   | [.str "append_fst"] => pure .appendFst
   | _ => throw "bad-case: fn2"
